@@ -28,6 +28,12 @@ fn main() {
         let equal = match (&g, traced.get(app)) { (Ok(a), Some(Some(b))) => a == b, (Err(_), Some(None)) => true, _ => false };
         println!("{{\"generator\":{},\"ok\":{},\"equal\":{},\"error\":{}}}", json_str(app), g.is_ok(), equal, json_str(&g.err().unwrap_or_default()));
     }
+    // another registration route (samples first) must end in the same registry
+    for (app, gen) in apps::typegens_via_samples() {
+        let g = gen.and_then(apps::take_registry).map(|r| serde_json::to_string(&r).unwrap());
+        let equal = match (&g, traced.get(app)) { (Ok(a), Some(Some(b))) => a == b, _ => false };
+        println!("{{\"route\":\"samples\",\"of\":{},\"ok\":{},\"equal\":{},\"error\":{}}}", json_str(app), g.is_ok(), equal, json_str(&g.err().unwrap_or_default()));
+    }
     let direct = apps::incomplete_typegen().and_then(|g| { let mut g = g; match std::mem::replace(&mut g.state, crux_core::typegen::State::Generating(Default::default())) {
         crux_core::typegen::State::Registering(t, _) => t.registry().map(|_| ()).map_err(|e| e.to_string()), _ => Ok(()) } });
     let viagen = apps::incomplete_typegen().and_then(|g| apps::generated_registry(g, &format!("{}/java_incomplete", out)).map(|_| ()));
